@@ -202,7 +202,7 @@ func (s *ssSrv) Send(b []byte) error {
 	select {
 	case err := <-errc:
 		return err
-	case <-time.After(20 * time.Second):
+	case <-time.After(ssDlHang()):
 		return errSSTimeout
 	}
 }
